@@ -14,9 +14,12 @@ Notation keys_pfx_s := (@keys_pfx string string kpfx).
 Notation bodies_ok_s := (bodies_ok String.eqb kof kpfx).
 Notation resync_s := (resync String.eqb kof).
 
+(* a file as a list of text lines: every line canonical (the last one may lack its LF), no CR *)
+Definition lines_okb (ls : list string) : bool := lines_shape ls && forallb (no_char CR) ls.
+
 Lemma read_concat ls : lines_okb ls = true -> read_lines (concat_lines ls) = ls.
 Proof.
-  intros H. apply lines_okb_spec in H as [H1 H2]. unfold read_lines.
+  intros H. apply andb_prop in H as [H1 H2]. unfold read_lines.
   rewrite universal_newlines_nocr by (apply no_char_concat; assumption).
   apply split_concat. assumption.
 Qed.
@@ -32,7 +35,7 @@ Theorem sync_bytes a (B : list bitem_s) :
   file_sync a (concat_lines (bflatten_s B)) = concat_lines (synced_s (tags_of a) B).
 Proof.
   intros Hl Hk Hwf. unfold file_sync. rewrite (read_concat _ Hl). f_equal. unfold emplace.
-  apply (sync_spec String.eqb eqb_spec_str tab4 is_tag kof sub_of kpfx nl nl ""); assumption.
+  apply (sync_spec String.eqb eqb_spec_str tab4 is_tag kof sub_of kpfx vis nl nl ""); assumption.
 Qed.
 
 (* C18_idempotent *)
